@@ -1,4 +1,5 @@
 import DfolsVerif.Accept.IterAcc
+import DfolsVerif.Accept.DiagAcc
 import DfolsVerif.Driver.Proto
 namespace Dfols.IterDrv
 open Dfols.Proto Dfols.IterAcc
@@ -18,12 +19,33 @@ def run (evs : List IEv) : String :=
       | .error m => s!"rej@{i}:{m}"
   go {} 0 evs
 
-/-- `iter <tok>*` -/
+def parseDEv (t : String) : Option DiagAcc.DEv :=
+  if t = "o1" then some (.obj true) else if t = "o0" then some (.obj false) else if t = "k" then some .softOK
+  else if t = "e" then some .runEnd
+  else match t.splitOn ":" with
+    | ["b", a, b, c] => do pure (.runStart (← a.toNat?) (← b.toNat?) (← c.toNat?))
+    | ["w", a, b, c, d, e] => do pure (.row (← a.toNat?) (← b.toNat?) (← c.toNat?) (← d.toNat?) (← e.toNat?))
+    | ["z", a, b, c] => do pure (.result (← a.toNat?) (← b.toNat?) (← c.toNat?))
+    | _ => none
+
+def runDiag (maxNpt : Nat) (evs : List DiagAcc.DEv) : String :=
+  let rec go (s : DiagAcc.St) (i : Nat) : List DiagAcc.DEv → String
+    | [] => s!"ok rows={s.rows.length} nf={s.nf} nx={s.nx} nruns={s.nruns}"
+    | e :: es => match DiagAcc.step maxNpt s e with
+      | .ok s' => go s' (i+1) es
+      | .error m => s!"rej@{i}:{m}"
+  go {} 0 evs
+
+/-- `iter <tok>*`  |  `diag <maxNpt> <tok>*` -/
 def handle (ts : List String) : String :=
   match ts with
   | "iter" :: rest =>
     match rest.mapM parseEv with
     | some evs => run evs
     | none => "bad-op"
+  | "diag" :: m :: rest =>
+    match m.toNat?, rest.mapM parseDEv with
+    | some mx, some evs => runDiag mx evs
+    | _, _ => "bad-op"
   | _ => "bad-op"
 end Dfols.IterDrv
